@@ -103,7 +103,7 @@ def api_case_directed(rng):
     w = rng.choice([8, 16, 32, 64])
     fm = rng.choice([0, 1, 2, 3, 5, 1 << 14, (1 << 14) + 1, 1 << 23])
     calls = [['new', [w], {'flat_max_words': fm}]]
-    kind = rng.choice(['span', 'overflow', 'pages', 'segments', 'baditems', 'reinit', 'ring', 'hybrid'])
+    kind = rng.choice(['span', 'overflow', 'pages', 'segments', 'baditems', 'reinit', 'ring', 'hybrid', 'hugering', 'devraise'])
     n = rng.choice([2, 4, 6, 8, 40])
     words = [rng.choice([0, 2 * w, 2 * w + 1, rng.randrange(8 * w), rng.getrandbits(w)]) for _ in range(n)]
     if kind == 'span':
@@ -150,6 +150,25 @@ def api_case_directed(rng):
         calls += [['add_segment', 0, n], ['set_words', 0, words]]
         for _ in range(3):
             calls.append(['run', rng.choice(['', 'ff']), {'last_ops_length': rng.choice([1, 2, 3, 7, -1, 100]), 'start_ip': rng.choice([0, 0, 2 * w, 4 * w, 1])}])
+    elif kind == 'hugering':
+        # a ring whose byte size wraps or cannot be allocated: the engine must refuse (MemoryError), not run with a tiny ring
+        prog = rng.choice([IO_PROGRAM(w), LOOP_PROGRAM(w), words + [0] * (8 - min(n, 8))])
+        calls += [['add_segment', 0, len(prog)], ['set_words', 0, prog]]
+        for _ in range(rng.choice([1, 2, 3])):
+            calls.append(['run', rng.choice(['', 'ff']), {'last_ops_length': rng.choice(HUGE_RINGS), 'start_ip': 0}])
+            calls.append(['last_ops_probe'])
+        calls.append(['run', '', {'last_ops_length': rng.choice([0, 2]), 'start_ip': 0}] if prog != LOOP_PROGRAM(w) else ['get_word', 0])
+    elif kind == 'devraise':
+        # a device failure (or Ctrl+C) stops a run that keeps a last-ops ring: the kept list is read back, several times
+        calls += [['add_segment', 0, 8], ['set_words', 0, IO_PROGRAM(w)]]
+        for _ in range(rng.choice([1, 2, 3])):
+            io = {rng.choice(['read', 'write']): 'raise', 'at': rng.choice([0, 0, 1]), 'exc': rng.choice(DEVICE_EXCEPTIONS)}
+            calls.append(['run', rng.choice(['', '01', 'ff']), {'last_ops_length': rng.choice([1, 2, 3, 8, 100]), 'start_ip': rng.choice([0, 0, 2 * w]), 'io': io}])
+            calls.append(['last_ops_probe'])
+            if rng.random() < 0.5:
+                calls.append(['set_words', 0, IO_PROGRAM(w)])
+                calls.append(['run', 'ff', {'last_ops_length': rng.choice([0, 3]), 'start_ip': 0}])
+                calls.append(['last_ops_probe'])
     else:  # hybrid: a window smaller than the segments, far segments
         far = rng.choice([1 << 14, (1 << 14) - 1, 1 << 23, 1 << 40, (1 << 58) - 2])
         calls += [['add_segment', 0, n], ['add_segment', far, rng.choice([2, 4, 1 << 14])], ['set_words', 0, words],
@@ -168,6 +187,25 @@ def api_case_directed(rng):
 
 
 IO_PROGRAM = lambda w: [5 * w, 2 * w, 5 * w + 1, 4 * w, 2 * w, 4 * w, 0, 0]   # op0 -> op1 (input) -> op2 (output, halts by looping)
+LOOP_PROGRAM = lambda w: [10 * w, 4 * w, 0, 0, 10 * w + 1, 6 * w, 10 * w + 2, 4 * w, 0, 0, 0, 0]   # ops at 4w <-> 6w flipping word 10, for ever
+HUGE_RINGS = [1 << 61, (1 << 61) + 1, (1 << 61) - 1, 1 << 62, (1 << 63) - 1, U64 // 8, U64 // 8 + 2, 1 << 60, (1 << 61) + 3, 3 << 61]
+DEVICE_EXCEPTIONS = ['OSError', 'BrokenIOUsed', 'KeyboardInterrupt', 'RuntimeError']
+
+
+def ring_file_case(rng):
+    """through fjm_run.run: (a) a last-ops length whose ring cannot be allocated (the byte size wraps from 2^61 on) - the run
+    must be refused with an exception; (b) a device that fails while a last-ops ring is kept - the engine's kept list stays owned"""
+    w = rng.choice([8, 16, 32, 64])
+    huge = rng.random() < 0.5
+    prog = rng.choice([IO_PROGRAM(w), LOOP_PROGRAM(w)]) if huge else IO_PROGRAM(w)
+    c = dict(kind='file', w=w, segs=[(0, len(prog), 0, len(prog))], words=prog, version=rng.choice([0, 1]),
+             input=rng.choice(['', '01', 'ff']), script={}, no_flat=rng.random() < 0.3, measure=False)
+    if huge:
+        c.update(last_ops=rng.choice(HUGE_RINGS), tags=['hugering'], expect='refused')
+    else:
+        c.update(last_ops=rng.choice([1, 2, 3, 8, 100]), tags=['devraise'],
+                 dev_fail={'on': rng.choice(['read', 'write']), 'at': rng.choice([0, 0, 1]), 'exc': rng.choice(DEVICE_EXCEPTIONS)})
+    return c
 
 
 def refprobe_case(rng):
@@ -176,11 +214,15 @@ def refprobe_case(rng):
     calls = [['new', [w], {'flat_max_words': rng.choice([0, 0, 4])}], ['add_segment', 0, 8], ['set_words', 0, IO_PROGRAM(w)]]
     io = rng.choice([None, {'read': 'raise'}, {'read': 'nonbool'}, {'read': 'badtruth'}, {'read': 'eof'}, {'write': 'raise'},
                      {'read': 'raise', 'at': 1}, {'write': 'raise', 'at': 1}])
+    exc = rng.choice(DEVICE_EXCEPTIONS)
+    if io and 'raise' in io.values():
+        io = dict(io, exc=exc)
     for _ in range(rng.choice([1, 2])):
-        kw = {'last_ops_length': rng.choice([0, 0, 3]), 'start_ip': 0}
+        kw = {'last_ops_length': rng.choice([0, 0, 3, 3, 50]), 'start_ip': 0}
         if io:
             kw['io'] = io
         calls.append(['run', rng.choice(['', '01', 'ff']), kw])
+        calls.append(['last_ops_probe'])
         calls.append(['set_words', rng.choice([0, 0, 9, U64]), rng.choice([[1, 2], [1, 'neg', 2], ['big'], [3, 'str'], ['none', 1], [], [1, 2, 3, 'huge']])])
         calls.append(['set_words', 0, IO_PROGRAM(w)])
     return {'kind': 'api', 'tags': ['refprobe', json.dumps(io, sort_keys=True)], 'calls': calls}
@@ -209,6 +251,15 @@ def _item(x):
     return 'ItOverflow' if x in ('neg', 'big', 'huge') else 'ItNotInt'
 
 
+def _spec(io, side):
+    """the misbehaviour of read_bit / write_bit from its k-th call on, as an option (N * cbres)"""
+    how = io.get(side)
+    if not how:
+        return 'None'
+    res = {'raise': 'CbRaise', 'eof': 'CbEOF', 'nonbool': '(CbBool true)', 'badtruth': 'CbBadTruth'}[how]
+    return f'(Some ({io.get("at", 0)}, {res}))'
+
+
 def _bits(hexs):
     return '[' + ';'.join('true' if (b >> i) & 1 else 'false' for b in bytes.fromhex(hexs) for i in range(8)) + ']'
 
@@ -223,7 +274,7 @@ def tie_terms(case, res):
         vals = []
         if isinstance(r, str) and r.startswith('exc:'):
             cls = EXC_CODE.get(r[4:], 5)
-            if r[4:] == 'KeyboardInterrupt':
+            if r[4:] == 'KeyboardInterrupt' and not (name == 'run' and (args[1].get('io') or {}).get('exc') == 'KeyboardInterrupt'):
                 break                                  # the watchdog fired: nothing to compare from here on
         else:
             cls = 0
@@ -239,13 +290,15 @@ def tie_terms(case, res):
         elif name == 'set_words':
             t = f'TSetWords {_n(args[0])} [' + ';'.join(_item(x) for x in args[1]) + ']'
         elif name == 'run':
-            if 'io' in args[1]:
-                break                                  # misbehaving callbacks: dynamic probe only
+            io = args[1].get('io') or {}
             if cls == 0:
                 if r[1] > TIE_MAX_OPS:
                     break
                 vals = [r[0], r[1], 0 if r[2] is None else r[2] + 1] + list(r[3])
-            t = f'TRun {_bits(args[0])} ({args[1].get("last_ops_length", 0)})%Z {_n(args[1].get("start_ip", 0))}'
+            t = f'TRun {_bits(args[0])} {_spec(io, "read")} {_spec(io, "write")} ({args[1].get("last_ops_length", 0)})%Z {_n(args[1].get("start_ip", 0))}'
+        elif name == 'last_ops_probe':
+            t = 'TLastOps'
+            vals = r[1] if cls == 0 and r[1] is not None else []
         elif name == 'get':
             t = 'TGet'
         else:
@@ -312,6 +365,8 @@ def gen_cases(ctx, n):
         cases.append(api_case_directed(rng))
     for _ in range(max(100, min(n // 25, 2000))):
         cases.append(refprobe_case(rng))
+    for _ in range(max(60, min(n // 100, 500))):
+        cases.append(ring_file_case(rng))
     return cases
 
 
@@ -354,13 +409,22 @@ def campaign_round(ctx, so, cases):
     for (results, aborts), chunk in zip(outs, chunks):
         aborted = aborted or bool(aborts)
         for c, r in zip(chunk, results):
+            for lk in (r or {}).get('leaks', []):
+                ctx.violation({'kind': 'refcount-leak', 'call': lk['name']},
+                              f"ownership of a Python object handed to / out of the engine is wrong ({lk['name']}): {lk}",
+                              {'case': c, 'leak': lk,
+                               'how': 'fjverif.workers.native_api on this case: sys.getrefcount of read_bit/write_bit/eof type/values before and '
+                                      'after the call; the last_run_last_ops getter protocol (_probe_last_ops)'})
+            if r is not None and c.get('expect') == 'refused':
+                ctx.hist('huge_ring', r.get('exc', 'RAN'))
+                if 'exc' not in r:
+                    ctx.violation({'kind': 'huge-ring-accepted'},
+                                  f"fjm_run.run(last_ops_debugging_list_length={c['last_ops']}) ran ({r}) although a ring of that length cannot exist",
+                                  {'case': c, 'observed': r, 'required': 'an exception (MemoryError wrapped as FlipJumpRuntimeException)'})
+            if r is not None and c.get('dev_fail'):
+                ctx.hist('dev_fail', f"{c['dev_fail']['exc']}:{r.get('exc', 'no-exception')}:kept={len(r.get('kept') or [])}")
             if r is not None and c['kind'] == 'api':
                 api.append((c, r))
-                for lk in r.get('leaks', []):
-                    ctx.violation({'kind': 'refcount-leak', 'call': lk['name']},
-                                  f"reference count of an object passed to {lk['name']}() changed across the call: {lk}",
-                                  {'case': c, 'leak': lk,
-                                   'how': 'fjverif.workers.native_api on this case: sys.getrefcount of read_bit/write_bit/eof type/values before and after'})
                 for call, res_ in zip(c['calls'], r['results']):
                     if call[0] in ('run', 'set_words'):
                         ctx.hist('refcount_probe', call[0] + ':' + (res_ if isinstance(res_, str) else 'ok'))
